@@ -83,7 +83,11 @@ def make_model(space, psis, dmat=None):
         special[f"t{n}"] = amp(n)
         special[f"t{n}cc"] = amp(n)
     if dmat is not None:
-        special["d"] = lambda m, k, b, up, lo: dmat[up[0]][lo[0]] % P
+        if isinstance(dmat, dict):      # two-particle operator d^{pq}_{rs}
+            special["d"] = lambda m, k, b, up, lo: dmat.get(
+                (up[0], up[1], lo[0], lo[1]), 0) % P
+        else:
+            special["d"] = lambda m, k, b, up, lo: dmat[up[0]][lo[0]] % P
     return numeric.Model(space.seed, (space.nocc, 0), (space.nvirt, 0),
                          special)
 
@@ -155,9 +159,10 @@ def run(ctx):
             jobs.append(("amp", variant, 3, 1, seeds[:1]))
             jobs.append(("amp", variant, 3, 3, seeds[:1]))
         jobs.append(("norm", variant, None, None, seeds[:1]))
-        if variant == "mp":
-            for n in range(max_order + 1):
-                jobs.append(("expect", variant, n, None, seeds))
+        # one-particle expectation value through third order (the odd-order
+        # normalisation factors first matter at order 3)
+        for n in range(4):
+            jobs.append(("expect", variant, n, None, seeds))
     # the explicit series used by the workers are certified inside Coq
     # (Models/RSPTCheck.v, theorem C02_rspt_certificate)
     cert_cases, cert_meta = [], []
